@@ -298,6 +298,64 @@ func checkC17(c *Ctx, r *Report) {
 	c17Pure(c, r, resolveFns)
 	c17Depr(c, r)
 	c17Null(c, r)
+	c17Roots(c, r)
+}
+
+// c17Roots: the root operation types introspection reports are those of the declared schema block;
+// the default names (Query, Mutation, Subscription) are used only to build a schema when none was
+// declared. Every insertion into Root.schema's fields outside the SDL reader is therefore
+// control-dependent on Root.schema having been nil.
+func c17Roots(c *Ctx, r *Report) {
+	r.rule("C17.ROOTS", "outside the SDL reader, fields are added to Root.schema only under root.schema == nil (a schema created there): a declared schema block is never completed by default names")
+	add := c.fn("(*fieldList).add")
+	if add == nil {
+		r.undecided("C17.ROOTS", "anchor (*fieldList).add", token.NoPos, "not found")
+		return
+	}
+	n := 0
+	for _, fn := range c.allFns {
+		if isScannerFn(c, fn) || fn.Name() == "Extend" {
+			continue
+		}
+		k := 0
+		for _, ci := range callsIn(fn) {
+			if ci.Common().StaticCallee() != add || len(ci.Common().Args) < 1 {
+				continue
+			}
+			// receiver &X.fields with X reached from a load of Root.schema
+			onSchema := false
+			v := ci.Common().Args[0]
+			for d := 0; d < 6 && v != nil; d++ {
+				switch t := v.(type) {
+				case *ssa.FieldAddr:
+					v = t.X
+				case *ssa.UnOp:
+					if _, o, f, ok := loadOfField(t); ok && o == "Root" && f == "schema" {
+						onSchema = true
+					}
+					v = nil
+				default:
+					v = nil
+				}
+			}
+			if !onSchema {
+				continue
+			}
+			n++
+			k++
+			ok := hasGuard(ci.Block(), func(g guard) bool {
+				x, eq, isN := nilCmp(g.cond)
+				if !isN || eq != g.val {
+					return false
+				}
+				_, o, f, isF := loadOfField(x)
+				return isF && o == "Root" && f == "schema"
+			})
+			r.check("C17.ROOTS", fmt.Sprintf("%s: insertion #%d into the schema's root fields only while building an undeclared schema", fnName(fn), k), ci.Pos(), ok,
+				"a root operation field is added to a schema that may have been declared: with `schema { query: Query }` and ordinary types named Mutation or Subscription, introspection reports mutationType / subscriptionType the SDL does not declare")
+		}
+	}
+	r.floor("C17.ROOTS", "insertions into Root.schema's fields outside the reader", n, 1)
 }
 
 func onlyNilReturn(cc *ast.CaseClause) bool {
